@@ -332,10 +332,23 @@ def r3(P: Project, R: Report) -> None:
     R.need(len(loops) == 1, f"anchor: expected one loop over the batch `{data}`, found {len(loops)}")
     loop = loops[0]
     item = ast.unparse(loop.target)
-    body_ok = len(loop.body) == 1 and isinstance(loop.body[0], ast.Try)
-    R.ob("R3", "batch loop body is one try", body_ok, f"{pm.module.rel}:{loop.lineno}", "a statement of the per-item body is outside the try")
+    # the per-item body is one try; around it only statements that cannot raise (a name bound to the item — what a helper's
+    # parameter becomes when the helper is read at its call site —, logging)
+    tries = [s_ for s_ in loop.body if isinstance(s_, ast.Try)]
+    def _inert(s_):
+        if isinstance(s_, ast.Assign) and len(s_.targets) == 1 and isinstance(s_.targets[0], ast.Name) and isinstance(s_.value, (ast.Name, ast.Constant)):
+            return True
+        if isinstance(s_, ast.Pass):
+            return True
+        return isinstance(s_, ast.Expr) and isinstance(s_.value, ast.Call) and call_name(s_.value).split(".")[0] in ("logger", "logging")
+    body_ok = len(tries) == 1 and all(s_ is tries[0] or _inert(s_) for s_ in loop.body)
+    R.ob("R3", "batch loop body is one try", body_ok, f"{pm.module.rel}:{loop.lineno}", "a statement of the per-item body that can raise is outside the try")
     if body_ok:
-        t = loop.body[0]
+        t = tries[0]
+        # the loop item under the names it is given before the try
+        for s_ in loop.body:
+            if isinstance(s_, ast.Assign) and isinstance(s_.value, ast.Name) and s_.value.id == item and isinstance(s_.targets[0], ast.Name):
+                item = s_.targets[0].id
         covers = any(h.type is None or ast.unparse(h.type) in ("Exception", "BaseException") for h in t.handlers)
         ha_ok = True
         for h in t.handlers:
